@@ -324,7 +324,7 @@ Qed.
 
 Definition sreq (d : demand) : nat := units (d_sgpr d) SREG_GRAN.
 Definition vreq (d : demand) : nat := units (d_vgpr d) VREG_GRAN.
-Definition lreq (d : demand) : nat := units (d_lds d) LDS_GRAN.
+Definition lreq (d : demand) : nat := units (lds_bytes d) LDS_GRAN.
 
 (** the unit regions FreeResourcesForWG recomputes from a recorded location *)
 Definition sreg_of (d : demand) (l : loc) : region := (N.to_nat (l_sgpr l / 4 / SREG_GRAN), sreq d).
@@ -691,7 +691,7 @@ Proof.
        split; simpl; auto. split; [eauto|]. split; auto. split; [exists []; apply (inv_l _ _ HI)|].
        split; auto. split; auto. split; [eapply pending_refl_simds; eauto|apply (inv_next _ _ HI)]. }
   destruct (Hsome soffs eq_refl) as [Hslen Hsm]. simpl in Hsm. cbn [lmask] in Hr.
-  destruct (next_region (lmask s) (units (d_lds d) LDS_GRAN) SFree) as [loff|] eqn:El.
+  destruct (next_region (lmask s) (units (lds_bytes d) LDS_GRAN) SFree) as [loff|] eqn:El.
   2: { inversion Hr; subst. eapply clear_inv; eauto.
        split; simpl; auto. split; [eauto|]. split; auto. split; [exists []; apply (inv_l _ _ HI)|].
        split; auto. split; auto. split; [eapply pending_refl_simds; eauto|apply (inv_next _ _ HI)]. }
@@ -1154,22 +1154,66 @@ Lemma conserved_when_empty : forall c s, Inv c s -> resident s = [] ->
   smask s = smask (init_cu c) /\ lmask s = lmask (init_cu c) /\ simds s = simds (init_cu c).
 Proof. intros c s HI Hr. apply (inv_determined c s (init_cu c) HI (init_inv c)). exact Hr. Qed.
 
-Definition with_dyn (d : demand) (x : N) : demand := mkDemand (d_nwf d) (d_sgpr d) (d_vgpr d) (d_lds d) x.
+Lemma total_app_aux : forall a b, fold_right (fun (r : nat * nat) x => snd r + x) 0 (a ++ b) =
+  fold_right (fun (r : nat * nat) x => snd r + x) 0 a + fold_right (fun (r : nat * nat) x => snd r + x) 0 b.
+Proof. induction a; intros; simpl; [reflexivity|]. rewrite IHa. lia. Qed.
 
-(** the LDS size of the dispatch packet plays no role in what is reserved *)
-Lemma reserve_ignores_dyn : forall s k d x,
-  match reserve s k d, reserve s k (with_dyn d x) with
-  | Crash, Crash => True
-  | Ret s1 r1, Ret s2 r2 =>
-    r1 = r2 /\ smask s1 = smask s2 /\ lmask s1 = lmask s2 /\ simds s1 = simds s2 /\ next_simd s1 = next_simd s2 /\
-    map fst (resident s1) = map fst (resident s2)
-  | _, _ => False
-  end.
+(** * Capacity, with the dynamic part of the LDS included *)
+
+(** number of (cell, region) incidences among the first [n] cells *)
+Fixpoint csum (rs : list region) (n : nat) : nat :=
+  match n with 0 => 0 | S k => cover rs k + csum rs k end.
+
+Definition total (rs : list region) : nat := fold_right (fun r a => snd r + a) 0 rs.
+
+Lemma csum_le : forall rs n, (forall i, i < n -> cover rs i <= 1) -> csum rs n <= n.
 Proof.
-  intros s k d x. unfold reserve, with_dyn. simpl.
-  destruct (sgpr_pass _ _ _) as [sm [soffs|]]; simpl; [|repeat split; auto].
-  destruct (next_region (lmask s) _ SFree) as [loff|]; simpl; [|repeat split; auto].
-  destruct (_ && _); [exact I|].
-  destruct (vgpr_pass _ _ _ _ _) as [[sims nxt] [vs|]]; simpl; [|repeat split; auto].
-  destruct (lookup k (resident s)); [exact I|]. simpl. repeat split; auto.
+  induction n; intros H; simpl; [lia|].
+  assert (cover rs n <= 1) by (apply H; lia).
+  assert (csum rs n <= n) by (apply IHn; intros; apply H; lia). lia.
+Qed.
+
+Lemma csum_cons : forall r rs n, csum (r :: rs) n = csum [r] n + csum rs n.
+Proof. induction n; simpl; [reflexivity|]. simpl in IHn. rewrite IHn. lia. Qed.
+
+Lemma csum_single : forall o l n, csum [(o, l)] n = Nat.min (o + l) n - Nat.min o n.
+Proof.
+  induction n; simpl; [lia|]. rewrite IHn.
+  destruct (inreg (o, l) n) eqn:E.
+  - apply inreg_iff in E. lia.
+  - apply inreg_false_iff in E. lia.
+Qed.
+
+Lemma csum_total : forall rs n, Forall (in_range n) rs -> csum rs n = total rs.
+Proof.
+  induction rs as [|[o l] rs IH]; intros n H.
+  - clear H. induction n; simpl; auto.
+  - inversion H as [|x y Hr Hrest]; subst. rewrite csum_cons, csum_single, (IH n Hrest).
+    unfold in_range in Hr; simpl in Hr. simpl. lia.
+Qed.
+
+Lemma mask_ok_total : forall m rs, mask_ok m rs [] -> total rs <= length m.
+Proof.
+  intros m rs [Hc Hr]. rewrite app_nil_r in Hr. rewrite <- (csum_total rs (length m) Hr).
+  apply csum_le. intros i Hi.
+  destruct (nth_error m i) as [st|] eqn:E; [|apply nth_error_None in E; lia].
+  specialize (Hc i st E). destruct st; simpl in Hc; lia.
+Qed.
+
+(** LDS units in use by the resident work-groups, dynamic part included *)
+Definition lds_in_use (res : list entry) : nat :=
+  fold_right (fun e a => units (N.max (d_lds (e_dem e)) (d_dyn (e_dem e))) LDS_GRAN + a) 0 res.
+
+Lemma lregs_total : forall n res, Forall (entry_ok n) res -> total (lregs res) = lds_in_use res.
+Proof.
+  induction res as [|e res IH]; intros H; [reflexivity|].
+  inversion H as [|x y He Hrest]; subst. unfold lregs in *. simpl. rewrite total_app_aux.
+  rewrite (IH Hrest). destruct He as [Hl [Hn _]].
+  destruct (e_locs e) as [|l ls]; [simpl in Hl; lia|]. simpl. unfold lreq, lds_bytes. lia.
+Qed.
+
+Lemma lds_capacity : forall c s, Inv c s -> lds_in_use (resident s) <= N.to_nat (cfg_lds c / LDS_GRAN).
+Proof.
+  intros c s HI. rewrite <- (lregs_total _ _ (inv_entries _ _ HI)), <- (inv_llen _ _ HI).
+  apply mask_ok_total, (inv_l _ _ HI).
 Qed.
